@@ -10,8 +10,13 @@
 //!     poll and the iteration order of the `HashMap` of streams cannot matter,
 //!   * the keep-alive `Timer` reads a virtual clock that advances by one unit per `tick`.
 //!
-//! Case     (ws PROTO KA STEP…)   STEP = ((MSG…) FUT STR TICK)        — see lean/AGV/Drive/C25.lean
-//! Output   (tr EV…)              the session trace; polling stops after the stream ended.
+//! Case     (ws PROTO KA STEP…)   STEP = ((FRAME…) FUT STR TICK)      — see lean/AGV/Drive/C25.lean
+//!          FRAME = (t "text") | (b "hex bytes") | (eof): frames are BYTE STRINGS; what a frame means is
+//!          decided by the Lean model of `ClientMessage::from_bytes`, never by this harness.
+//! Output   (tr EV…)              the session trace ((r K) = frame K was taken from the socket);
+//!                                polling stops after the stream ended.
+//!
+//! Stream `decode`:  (dec FRAME)  →  the canonical form of `ClientMessage::from_bytes(frame)`.
 
 use std::{
     collections::VecDeque,
@@ -25,7 +30,7 @@ use std::{
 use agvh::*;
 use async_graphql::{
     Data, Executor, Request, Response,
-    http::{WebSocket, WebSocketProtocols, WsMessage},
+    http::{ClientMessage, WebSocket, WebSocketProtocols, WsMessage},
     runtime::Timer,
 };
 use futures_util::{
@@ -36,8 +41,8 @@ use futures_util::{
 // ------------------------------------------------------------------ the controlled environment
 
 enum QItem {
-    Msg(Vec<u8>, Sexp),
-    Eof,
+    Msg(Vec<u8>, usize),
+    Eof(usize),
 }
 
 #[derive(Default)]
@@ -60,13 +65,14 @@ impl Stream for ClientStream {
         let mut sh = self.0.lock().unwrap();
         match sh.queue.front() {
             None => Poll::Pending,
-            Some(QItem::Eof) => {
-                sh.log.push(node("r", vec![atom("eof")]));
+            Some(QItem::Eof(k)) => {
+                let k = *k;
+                sh.log.push(node("r", vec![num(k)]));
                 Poll::Ready(None)
             }
             Some(QItem::Msg(..)) => {
-                let Some(QItem::Msg(bytes, echo)) = sh.queue.pop_front() else { unreachable!() };
-                sh.log.push(echo);
+                let Some(QItem::Msg(bytes, k)) = sh.queue.pop_front() else { unreachable!() };
+                sh.log.push(node("r", vec![num(k)]));
                 Poll::Ready(Some(bytes))
             }
         }
@@ -152,59 +158,40 @@ impl Timer for VTimer {
     }
 }
 
-// ------------------------------------------------------------------ rendering client messages
+// ------------------------------------------------------------------ frames
 
-const BAD: [&str; 10] = [
-    "{",
-    "",
-    "[]",
-    r#"{"type":"foo"}"#,
-    r#"{"id":"id0"}"#,
-    r#"{"type":"start","payload":{"query":"subscription { s }"}}"#,
-    r#"{"type":"subscribe","id":"id0"}"#,
-    r#"{"type":"start","id":5,"payload":{"query":"subscription { s }"}}"#,
-    r#"{"type":"Connection_Init"}"#,
-    r#"{"type":"stop"}"#,
-];
+fn ft(text: &str) -> Sexp {
+    node("t", vec![st(text)])
+}
 
-fn render_msg(m: &Sexp) -> QItem {
-    let a = m.args();
-    let v = a.last().and_then(|x| x.as_usize()).unwrap_or(0);
-    let id = || format!("id{}", a[0].as_usize().expect("id"));
-    let (text, echo) = match m.tag().expect("msg tag") {
-        "init" => (
-            if v == 0 { r#"{"type":"connection_init"}"#.to_string() } else { r#"{"type":"connection_init","payload":{"token":"t"}}"#.to_string() },
-            node("r", vec![atom("init")]),
-        ),
-        "start" => (
-            format!(
-                r#"{{"type":"{}","id":"{}","payload":{{"query":"subscription {{ s }}"}}}}"#,
-                if v == 0 { "start" } else { "subscribe" },
-                id()
-            ),
-            node("r", vec![atom("start"), a[0].clone()]),
-        ),
-        "stop" => (
-            format!(r#"{{"type":"{}","id":"{}"}}"#, if v == 0 { "stop" } else { "complete" }, id()),
-            node("r", vec![atom("stop"), a[0].clone()]),
-        ),
-        "term" => (
-            if v == 0 { r#"{"type":"connection_terminate"}"#.to_string() } else { r#"{"type":"connection_terminate","payload":null}"#.to_string() },
-            node("r", vec![atom("term")]),
-        ),
-        "ping" => (
-            if v == 0 { r#"{"type":"ping"}"#.to_string() } else { r#"{"type":"ping","payload":{"a":1}}"#.to_string() },
-            node("r", vec![atom("ping")]),
-        ),
-        "pong" => (
-            if v == 0 { r#"{"type":"pong"}"#.to_string() } else { r#"{"type":"pong","payload":{"a":1}}"#.to_string() },
-            node("r", vec![atom("pong")]),
-        ),
-        "bad" => (BAD[v % BAD.len()].to_string(), node("r", vec![atom("bad")])),
-        "eof" => return QItem::Eof,
-        t => panic!("unknown message kind {t}"),
-    };
-    QItem::Msg(text.into_bytes(), echo)
+fn fb(bytes: &[u8]) -> Sexp {
+    let mut h = String::with_capacity(bytes.len() * 2);
+    for b in bytes {
+        h.push_str(&format!("{b:02x}"));
+    }
+    node("b", vec![st(h)])
+}
+
+/// a frame given as bytes: text form when the bytes are UTF-8
+fn frame(bytes: &[u8]) -> Sexp {
+    match std::str::from_utf8(bytes) {
+        Ok(s) => ft(s),
+        Err(_) => fb(bytes),
+    }
+}
+
+/// the bytes of a FRAME (`None` = end of the client stream)
+fn frame_bytes(f: &Sexp) -> Option<Vec<u8>> {
+    match f.tag().expect("frame tag") {
+        "t" => Some(f.args()[0].as_str().expect("text frame").as_bytes().to_vec()),
+        "b" => {
+            let h = f.args()[0].as_str().expect("byte frame").as_bytes();
+            assert!(h.len() % 2 == 0, "odd hex");
+            Some(h.chunks(2).map(|p| u8::from_str_radix(std::str::from_utf8(p).unwrap(), 16).expect("hex")).collect())
+        }
+        "eof" => None,
+        t => panic!("unknown frame kind {t}"),
+    }
 }
 
 // ------------------------------------------------------------------ canonical output
@@ -221,12 +208,6 @@ fn reason(s: &str) -> Sexp {
     })
 }
 
-fn num_id(v: &serde_json::Value) -> Option<Sexp> {
-    let s = v.as_str()?;
-    let n: usize = s.strip_prefix("id")?.parse().ok()?;
-    Some(num(n))
-}
-
 fn canon_text(t: &str) -> Sexp {
     let raw = || node("text", vec![st(t)]);
     let Ok(v) = serde_json::from_str::<serde_json::Value>(t) else { return raw() };
@@ -236,15 +217,15 @@ fn canon_text(t: &str) -> Sexp {
     let has_only = |ks: &[&str]| keys.len() == ks.len() && ks.iter().all(|k| keys.contains(k));
     match ty {
         "connection_ack" | "pong" if has_only(&["type"]) => node(ty, vec![]),
-        "complete" if has_only(&["type", "id"]) => match num_id(&obj["id"]) {
-            Some(id) => node(ty, vec![id]),
+        "complete" if has_only(&["type", "id"]) => match obj["id"].as_str() {
+            Some(id) => node(ty, vec![st(id)]),
             None => raw(),
         },
         "next" | "data" if has_only(&["type", "id", "payload"]) => {
             let p = &obj["payload"];
             let ok_shape = p.as_object().map(|o| o.len() == 1).unwrap_or(false);
-            match (num_id(&obj["id"]), p["data"]["i"].as_u64(), p["data"]["v"].as_u64()) {
-                (Some(id), Some(i), Some(val)) if ok_shape => node(ty, vec![id, num(i), num(val)]),
+            match (obj["id"].as_str(), p["data"]["i"].as_u64(), p["data"]["v"].as_u64()) {
+                (Some(id), Some(i), Some(val)) if ok_shape => node(ty, vec![st(id), num(i), num(val)]),
                 _ => raw(),
             }
         }
@@ -256,9 +237,93 @@ fn canon_text(t: &str) -> Sexp {
     }
 }
 
+fn num_sexp(n: &serde_json::Number) -> Sexp {
+    if let Some(u) = n.as_u64() {
+        node("i", vec![num(u)])
+    } else if let Some(i) = n.as_i64() {
+        node("i", vec![num(i)])
+    } else {
+        atom("f")
+    }
+}
+
+fn sorted_obj(mut kvs: Vec<(String, Sexp)>) -> Sexp {
+    kvs.sort_by(|a, b| a.0.cmp(&b.0));
+    node("o", kvs.into_iter().map(|(k, v)| list(vec![st(k), v])).collect())
+}
+
+fn canon_json(v: &serde_json::Value) -> Sexp {
+    use serde_json::Value as V;
+    match v {
+        V::Null => atom("null"),
+        V::Bool(b) => atom(if *b { "true" } else { "false" }),
+        V::Number(n) => num_sexp(n),
+        V::String(s) => node("s", vec![st(s.as_str())]),
+        V::Array(xs) => node("a", xs.iter().map(canon_json).collect()),
+        V::Object(m) => sorted_obj(m.iter().map(|(k, v)| (k.clone(), canon_json(v))).collect()),
+    }
+}
+
+fn canon_const(v: &async_graphql::Value) -> Sexp {
+    use async_graphql::Value as V;
+    match v {
+        V::Null => atom("null"),
+        V::Boolean(b) => atom(if *b { "true" } else { "false" }),
+        V::Number(n) => num_sexp(n),
+        V::String(s) => node("s", vec![st(s.as_str())]),
+        V::List(xs) => node("a", xs.iter().map(canon_const).collect()),
+        V::Object(m) => sorted_obj(m.iter().map(|(k, v)| (k.to_string(), canon_const(v))).collect()),
+        V::Enum(n) => node("enum", vec![st(n.as_str())]),
+        V::Binary(_) => atom("binary"),
+    }
+}
+
+fn opt_json(p: &Option<serde_json::Value>) -> Sexp {
+    match p {
+        None => atom("-"),
+        Some(v) => canon_json(v),
+    }
+}
+
+/// `ClientMessage::from_bytes` in canonical form
+fn run_decode(f: &Sexp, dist: &mut Dist) -> Sexp {
+    let bytes = frame_bytes(f).expect("dec of eof");
+    let out = match ClientMessage::from_bytes(&bytes) {
+        Err(_) => node("bad", vec![]),
+        Ok(ClientMessage::ConnectionInit { payload }) => node("init", vec![opt_json(&payload)]),
+        Ok(ClientMessage::Start { id, payload }) => node(
+            "start",
+            vec![
+                st(id),
+                node(
+                    "req",
+                    vec![
+                        st(payload.query.as_str()),
+                        match &payload.operation_name {
+                            None => atom("-"),
+                            Some(o) => st(o.as_str()),
+                        },
+                        sorted_obj(payload.variables.iter().map(|(k, v)| (k.to_string(), canon_const(v))).collect()),
+                        sorted_obj(payload.extensions.iter().map(|(k, v)| (k.clone(), canon_const(v))).collect()),
+                    ],
+                ),
+            ],
+        ),
+        Ok(ClientMessage::Stop { id }) => node("stop", vec![st(id)]),
+        Ok(ClientMessage::ConnectionTerminate) => node("term", vec![]),
+        Ok(ClientMessage::Ping { payload }) => node("ping", vec![opt_json(&payload)]),
+        Ok(ClientMessage::Pong { payload }) => node("pong", vec![opt_json(&payload)]),
+    };
+    dist.hit(&format!("dec_{}", out.tag().unwrap_or("?")));
+    out
+}
+
 // ------------------------------------------------------------------ running one case
 
 fn run(case: &Sexp, dist: &mut Dist) -> Sexp {
+    if case.tag() == Some("dec") {
+        return run_decode(&case.args()[0], dist);
+    }
     assert_eq!(case.tag(), Some("ws"));
     let a = case.args();
     let proto = match a[0].as_atom().unwrap() {
@@ -280,12 +345,17 @@ fn run(case: &Sexp, dist: &mut Dist) -> Sexp {
     let mut ws = Box::pin(ws);
     let waker = futures_util::task::noop_waker();
     let mut cx = Context::from_waker(&waker);
+    let mut n_frames = 0usize;
     for step in &a[2..] {
         let s = step.as_list().expect("step");
         {
             let mut g = sh.lock().unwrap();
-            for m in s[0].as_list().expect("msgs") {
-                g.queue.push_back(render_msg(m));
+            for m in s[0].as_list().expect("frames") {
+                g.queue.push_back(match frame_bytes(m) {
+                    Some(bytes) => QItem::Msg(bytes, n_frames),
+                    None => QItem::Eof(n_frames),
+                });
+                n_frames += 1;
             }
             g.fut = match s[1].as_atom() {
                 Some("ok") => Some(true),
@@ -325,23 +395,473 @@ fn run(case: &Sexp, dist: &mut Dist) -> Sexp {
     node("tr", log)
 }
 
-// ------------------------------------------------------------------ generator
+// ------------------------------------------------------------------ generator: frames
+
+const QUERY: &str = "subscription { s }";
+const KINDS: [&str; 6] = ["init", "start", "stop", "term", "ping", "pong"];
+
+/// the plain spellings of the client messages (`v` selects one of the two the parser accepts)
+fn plain(kind: &str, id: usize, v: usize) -> String {
+    match kind {
+        "init" => {
+            if v == 0 { r#"{"type":"connection_init"}"#.to_string() } else { r#"{"type":"connection_init","payload":{"token":"t"}}"#.to_string() }
+        }
+        "start" => format!(
+            r#"{{"type":"{}","id":"id{}","payload":{{"query":"{}"}}}}"#,
+            if v == 0 { "start" } else { "subscribe" },
+            id,
+            QUERY
+        ),
+        "stop" => format!(r#"{{"type":"{}","id":"id{}"}}"#, if v == 0 { "stop" } else { "complete" }, id),
+        "term" => {
+            if v == 0 { r#"{"type":"connection_terminate"}"#.to_string() } else { r#"{"type":"connection_terminate","payload":null}"#.to_string() }
+        }
+        "ping" => {
+            if v == 0 { r#"{"type":"ping"}"#.to_string() } else { r#"{"type":"ping","payload":{"a":1}}"#.to_string() }
+        }
+        "pong" => {
+            if v == 0 { r#"{"type":"pong"}"#.to_string() } else { r#"{"type":"pong","payload":{"a":1}}"#.to_string() }
+        }
+        k => panic!("unknown message kind {k}"),
+    }
+}
+
+fn nest(open: &str, close: &str, n: usize, inner: &str) -> String {
+    format!("{}{}{}", open.repeat(n), inner, close.repeat(n))
+}
+
+/// hand-picked frames: every family of the frame→message step (trailing data, white space, BOM,
+/// repeated / unknown / ill-typed members, arrays, depth, numbers, strings, UTF-8)
+fn specials() -> Vec<(&'static str, Vec<u8>)> {
+    let init = plain("init", 0, 0);
+    let start0 = plain("start", 0, 1);
+    let start1 = plain("start", 1, 0);
+    let stop0 = plain("stop", 0, 1);
+    let ping = plain("ping", 0, 0);
+    let mut v: Vec<(&'static str, Vec<u8>)> = vec![];
+    let mut t = |fam: &'static str, s: String| v.push((fam, s.into_bytes()));
+    // valid message + trailing bytes
+    for base in [&init, &start0, &stop0, &ping] {
+        t("trail_msg", format!("{base}{start1}"));
+        t("trail_msg", format!("{base}{base}"));
+        t("trail_trunc", format!("{base}\n{{\"type\":"));
+        t("trail_brace", format!("{base}}}"));
+        t("trail_x", format!("{base} x"));
+        t("trail_nul", format!("{base}\u{0}"));
+        t("trail_scalar", format!("{base}1"));
+        t("trail_scalar", format!("{base} null"));
+        t("trail_comma", format!("{base},"));
+        // white space only: legal JSON
+        t("trail_ws", format!("{base} \n\t\r "));
+        t("lead_ws", format!(" \r\n\t{base}"));
+        t("lead_bom", format!("\u{feff}{base}"));
+        t("trail_bom", format!("{base}\u{feff}"));
+        t("trail_ff", format!("{base}\u{c}"));
+        t("trail_nbsp", format!("{base}\u{a0}"));
+    }
+    // repeated members
+    t("dup_type", r#"{"type":"ping","type":"ping"}"#.into());
+    t("dup_type", r#"{"type":"connection_init","type":"ping"}"#.into());
+    t("dup_type", r#"{"\u0074ype":"ping","type":"ping"}"#.into());
+    t("dup_id", r#"{"type":"stop","id":"id0","id":"id0"}"#.into());
+    t("dup_id", format!(r#"{{"type":"start","id":"id0","id":"id1","payload":{{"query":"{QUERY}"}}}}"#));
+    t("dup_payload", format!(r#"{{"type":"start","id":"id0","payload":{{"query":"{QUERY}"}},"payload":{{"query":"{QUERY}"}}}}"#));
+    t("dup_payload", r#"{"type":"connection_init","payload":null,"payload":{}}"#.into());
+    t("dup_payload", r#"{"type":"ping","payload":1,"payload":2}"#.into());
+    t("dup_ignored", r#"{"type":"connection_terminate","payload":1,"payload":2}"#.into());
+    t("dup_ignored", r#"{"type":"stop","id":"id0","payload":1,"payload":2}"#.into());
+    t("dup_ignored", r#"{"type":"ping","id":1,"id":2,"x":null,"x":[]}"#.into());
+    t("dup_query", format!(r#"{{"type":"start","id":"id0","payload":{{"query":"{QUERY}","query":"{QUERY}"}}}}"#));
+    t("dup_vars", format!(r#"{{"type":"start","id":"id0","payload":{{"query":"{QUERY}","variables":{{"a":1,"a":2}},"extensions":{{"b":1,"b":[]}}}}}}"#));
+    // unknown members, member order, escapes in keys
+    t("unknown", r#"{"x":1,"type":"connection_init","y":{"type":"ping"},"":[]}"#.into());
+    t("unknown", format!(r#"{{"payload":{{"query":"{QUERY}","operation_name":"o","uploads":5}},"id":"id0","extra":true,"type":"subscribe"}}"#));
+    t("unknown", r#"{"id":"id0","type":"complete","payload":{"deep":[1,2,{"a":null}]}}"#.into());
+    t("key_esc", r#"{"\u0074\u0079pe":"p\u0069ng"}"#.into());
+    t("key_esc", r#"{"type":"stop","\u0069d":"id\u0030"}"#.into());
+    t("key_case", r#"{"TYPE":"ping"}"#.into());
+    t("key_case", r#"{"type":"Ping"}"#.into());
+    t("key_case", r#"{"type":"connection_ack"}"#.into());
+    t("key_case", r#"{"type":""}"#.into());
+    // wrong member types / missing members
+    t("ty_id", r#"{"type":"stop","id":5}"#.into());
+    t("ty_id", r#"{"type":"stop","id":null}"#.into());
+    t("ty_id", r#"{"type":"stop","id":["id0"]}"#.into());
+    t("ty_id", format!(r#"{{"type":"start","id":5,"payload":{{"query":"{QUERY}"}}}}"#));
+    t("ty_type", r#"{"type":null}"#.into());
+    t("ty_type", r#"{"type":5}"#.into());
+    t("ty_type", r#"{"type":["ping"]}"#.into());
+    t("ty_type", r#"{"type":{"type":"ping"}}"#.into());
+    t("ty_payload", r#"{"type":"start","id":"id0","payload":null}"#.into());
+    t("ty_payload", r#"{"type":"start","id":"id0","payload":"q"}"#.into());
+    t("ty_payload", r#"{"type":"start","id":"id0","payload":{"query":5}}"#.into());
+    t("ty_payload", r#"{"type":"start","id":"id0","payload":{"query":null}}"#.into());
+    t("ty_payload", r#"{"type":"start","id":"id0","payload":{"operationName":5}}"#.into());
+    t("ty_payload", r#"{"type":"start","id":"id0","payload":{"variables":[]}}"#.into());
+    t("ty_payload", r#"{"type":"start","id":"id0","payload":{"extensions":"x"}}"#.into());
+    t("ok_payload", r#"{"type":"start","id":"id0","payload":{}}"#.into());
+    t("ok_payload", r#"{"type":"start","id":"id0","payload":{"query":"q","operationName":null,"variables":null,"extensions":null}}"#.into());
+    t("ok_payload", r#"{"type":"subscribe","id":"id1","payload":{"query":"q","operationName":"o","variables":{"a":[1,-2,3.5,"s",null,true,{"b":{}}]},"extensions":{"e":18446744073709551615,"f":18446744073709551616,"g":-9223372036854775808,"h":-9223372036854775809,"i":-0}}}"#.into());
+    t("ok_payload", r#"{"type":"connection_init","payload":5}"#.into());
+    t("ok_payload", r#"{"type":"pong","payload":[1,"a",null,true,{"b":1.5}]}"#.into());
+    t("missing", r#"{"type":"stop"}"#.into());
+    t("missing", r#"{"type":"subscribe","id":"id0"}"#.into());
+    t("missing", format!(r#"{{"type":"start","payload":{{"query":"{QUERY}"}}}}"#));
+    t("missing", r#"{"id":"id0"}"#.into());
+    t("missing", "{}".into());
+    // not an object
+    t("array", "[]".into());
+    t("array", r#"["ping"]"#.into());
+    t("array", r#"["ping",null]"#.into());
+    t("array", r#"["pong",{"a":1}]"#.into());
+    t("array", r#"["connection_init",null]"#.into());
+    t("array", r#"["connection_terminate"]"#.into());
+    t("array", r#"["connection_terminate",1]"#.into());
+    t("array", r#"["stop","id0"]"#.into());
+    t("array", r#"["complete","id0","x"]"#.into());
+    t("array", format!(r#"["subscribe","id0",{{"query":"{QUERY}"}}]"#));
+    t("array", format!(r#"["start","id1",["{QUERY}"]]"#));
+    t("array", r#"["nope"]"#.into());
+    t("array", r#"[["ping"]]"#.into());
+    t("array", r#"[5]"#.into());
+    t("array_payload", r#"{"type":"start","id":"id0","payload":[]}"#.into());
+    t("array_payload", format!(r#"{{"type":"subscribe","id":"id1","payload":["{QUERY}",null,{{"a":1}},null]}}"#));
+    t("array_payload", r#"{"type":"start","id":"id0","payload":["q",null,null,null,null]}"#.into());
+    t("array_payload", r#"{"type":"start","id":"id0","payload":[5]}"#.into());
+    t("array_payload", r#"{"type":"start","id":"id0","payload":["q","o",[]]}"#.into());
+    t("scalar", "null".into());
+    t("scalar", "\"ping\"".into());
+    t("scalar", "1".into());
+    t("scalar", "true".into());
+    // nesting
+    for n in [100usize, 125, 126, 127, 128, 300] {
+        t("depth", format!(r#"{{"type":"ping","payload":{}}}"#, nest("[", "]", n, "")));
+        t("depth", format!(r#"{{"type":"ping","x":{}}}"#, nest("{\"a\":", "}", n, "1")));
+        t("depth", format!(r#"{{"x":{},"type":"connection_terminate"}}"#, nest("[", "]", n, "{}")));
+    }
+    t("depth", nest("[", "]", 200, ""));
+    t("depth", format!("[\"ping\",{}]", nest("[", "]", 126, "")));
+    t("depth", format!("[\"ping\",{}]", nest("[", "]", 127, "")));
+    // numbers
+    for n in [
+        "0", "-0", "01", "-01", "1.", ".5", "+1", "1e5", "1E+5", "1e-5", "1e", "1e+", "-", "1.5.5", "0x10", "1e400", "-1e400", "1e-400",
+        "1.7976931348623157e308", "1.7976931348623158e308", "1.7976931348623159e308", "179769313486231580793728971405303415079934132710037826936173778980444968292764750946649017977587207096330286416692887910946555547851940402630657488671505820681908902000708383676273854845817711531764475730270069855571366959622842914819860834936475292719074168444365510704342711559699508093042880177904174497791",
+        "179769313486231580793728971405303415079934132710037826936173778980444968292764750946649017977587207096330286416692887910946555547851940402630657488671505820681908902000708383676273854845817711531764475730270069855571366959622842914819860834936475292719074168444365510704342711559699508093042880177904174497792",
+        "0e99999999999999999999", "1e99999999999999999999", "1e-99999999999999999999", "0.0e2147483648", "123456789012345678901234567890", "1e01", "00", "NaN", "Infinity", "1_000",
+    ] {
+        t("number", format!(r#"{{"type":"ping","payload":{n}}}"#));
+    }
+    t("number", format!(r#"{{"type":"ping","x":0.{}1e400}}"#, "0".repeat(400)));
+    t("number", format!(r#"{{"type":"ping","x":1{}e-400}}"#, "0".repeat(400)));
+    t("number", format!(r#"{{"type":"ping","x":1{}}}"#, "0".repeat(308)));
+    t("number", format!(r#"{{"type":"ping","x":1{}}}"#, "0".repeat(309)));
+    // strings
+    for s in [
+        r#""\ud83d\ude00""#, r#""\ud83d""#, r#""\ude00""#, r#""\ud83dx""#, r#""\ud83d\u0041""#, r#""\uD83D\uDE00""#, r#""\u00e9\u0000""#, r#""\q""#,
+        r#""\/\b\f\n\r\t\"\\""#, r#""\u12""#, r#""\u12G4""#, "\"\u{1}\"", "\"\u{7f}\"", "\"\t\"", "\"é😀\"", r#"'a'"#, r#""unterminated"#, r#""\"#,
+    ] {
+        t("string", format!(r#"{{"type":"ping","payload":{s}}}"#));
+        t("string", format!(r#"{{"type":"stop","id":{s}}}"#));
+    }
+    // JSON syntax
+    for s in [
+        "", " ", "{", "}", r#"{"type":"ping""#, r#"{"type":"ping",}"#, r#"{,"type":"ping"}"#, r#"{"type":"ping" "x":1}"#, r#"{"type" "ping"}"#, r#"{"type":"ping","x":[1,]}"#,
+        r#"{"type":"ping","x":[,1]}"#, r#"{"type":"ping","x":[1 2]}"#, r#"{"type":"ping","x":tru}"#, r#"{"type":"ping","x":True}"#, r#"{"type":"ping","x":truefalse}"#,
+        r#"{"type":"ping","x":nullx}"#, r#"{type:"ping"}"#, r#"{"type":"ping"}// c"#, r#"{"type":"ping"/* c */}"#, r#"{"type" : "ping" , "payload" : [ ] }"#,
+        "{\n\t\"type\"\r:\n\"ping\"\n}\n", "{\u{b}\"type\":\"ping\"}", r#"{"type":"ping","x":}"#, r#"{"type":"ping","x"}"#, r#"{"type":"ping":1}"#, r#"{"type"::"ping"}"#, r#"{{"type":"ping"}}"#,
+        r#"{"type":"ping"]"#, r#"{"type":"ping","x":[1}"#, r#"{5:"ping"}"#, r#"{null:1,"type":"ping"}"#,
+    ] {
+        t("syntax", s.into());
+    }
+    let mut b = |fam: &'static str, bytes: Vec<u8>| v.push((fam, bytes));
+    // bytes that are not UTF-8
+    b("utf8", b"\xff".to_vec());
+    b("utf8", [ping.as_bytes(), b"\xff"].concat());
+    b("utf8", [b"\xff".as_slice(), ping.as_bytes()].concat());
+    b("utf8", b"{\"type\":\"ping\",\"x\":\"\xff\"}".to_vec());
+    b("utf8", b"{\"type\":\"ping\",\"x\":\"\xed\xa0\x80\"}".to_vec());
+    b("utf8", b"{\"type\":\"ping\",\"x\":\"\xc0\x80\"}".to_vec());
+    b("utf8", b"{\"type\":\"ping\",\"x\":\"\xf4\x90\x80\x80\"}".to_vec());
+    b("utf8", b"{\"type\":\"stop\",\"id\":\"id0\xc3\"}".to_vec());
+    b("utf8", b"{\"ty\xffpe\":\"ping\"}".to_vec());
+    b("utf8", b"{\"type\":\"ping\"}\xc2".to_vec());
+    b("utf8_ok", "{\"type\":\"stop\",\"id\":\"é😀\u{0}\"}".as_bytes().to_vec());
+    v
+}
+
+/// random JSON text for payloads and unknown members
+fn gen_json(rng: &mut Rng, depth: usize) -> String {
+    match rng.below(if depth == 0 { 8 } else { 11 }) {
+        0 => "null".into(),
+        1 => "true".into(),
+        2 => "false".into(),
+        3 => rng.range(-5, 100).to_string(),
+        4 => (*rng.pick(&["1.5", "-0", "1e5", "2E-3", "18446744073709551615", "18446744073709551616", "-9223372036854775808", "1e308", "0.1"])).into(),
+        5 | 6 => gen_string(rng),
+        7 => (*rng.pick(&["[]", "{}", "[ ]", "{ }"])).into(),
+        8 | 9 => {
+            let n = rng.below(3) + 1;
+            let xs: Vec<String> = (0..n).map(|_| gen_json(rng, depth - 1)).collect();
+            format!("[{}]", xs.join(if rng.chance(1, 4) { " , " } else { "," }))
+        }
+        _ => {
+            let n = rng.below(3) + 1;
+            let xs: Vec<String> = (0..n)
+                .map(|_| format!("{}:{}", gen_key(rng, &["a", "b", "type", "id", "payload", "query"]), gen_json(rng, depth - 1)))
+                .collect();
+            format!("{{{}}}", xs.join(","))
+        }
+    }
+}
+
+fn esc_char(rng: &mut Rng, c: char) -> String {
+    let cp = c as u32;
+    if cp >= 0x10000 && rng.chance(1, 2) {
+        let x = cp - 0x10000;
+        return format!("\\u{:04x}\\u{:04X}", 0xd800 + (x >> 10), 0xdc00 + (x & 0x3ff));
+    }
+    if cp < 0x20 || c == '"' || c == '\\' || rng.chance(1, 6) {
+        if cp < 0x10000 {
+            return if rng.chance(1, 2) { format!("\\u{cp:04x}") } else { format!("\\u{cp:04X}") };
+        }
+    }
+    c.to_string()
+}
+
+/// a JSON string token for `s` with random escaping
+fn quote_json(rng: &mut Rng, s: &str) -> String {
+    let mut o = String::from("\"");
+    for c in s.chars() {
+        o.push_str(&esc_char(rng, c));
+    }
+    o.push('"');
+    o
+}
+
+fn gen_string(rng: &mut Rng) -> String {
+    let s: String = match rng.below(8) {
+        0 => "".into(),
+        1 => "id0".into(),
+        2 => "a b".into(),
+        3 => "é😀".into(),
+        4 => "q\"\\/\n".into(),
+        5 => "\u{0}\u{1f}\u{7f}".into(),
+        6 => "ping".into(),
+        _ => "subscription { s }".into(),
+    };
+    if rng.chance(1, 12) {
+        // a raw (possibly malformed) token
+        return (*rng.pick(&[r#""\n\t\/\b\f\r""#, r#""\ud83d\ude00""#, r#""\ud83d""#, r#""\udc00""#, r#""\x""#, "\"\u{1}\"", r#""\u00e9""#, r#""\u00E9""#])).into();
+    }
+    quote_json(rng, &s)
+}
+
+fn gen_key(rng: &mut Rng, names: &[&str]) -> String {
+    let k = *rng.pick(names);
+    quote_json(rng, k)
+}
+
+fn ws(rng: &mut Rng) -> &'static str {
+    match rng.below(12) {
+        0 => " ",
+        1 => "\n",
+        2 => "\t",
+        3 => "\r\n",
+        4 => "  ",
+        _ => "",
+    }
+}
+
+/// a message object built member by member: mostly one of the table, with random member order,
+/// white space, escapes, unknown / repeated / ill-typed members
+fn gen_message(rng: &mut Rng, dist: &mut Dist) -> String {
+    let ty = *rng.pick(&[
+        "connection_init", "start", "subscribe", "stop", "complete", "connection_terminate", "ping", "pong", "start", "subscribe", "stop", "ping",
+        "Ping", "connection_ack", "", "next",
+    ]);
+    let mut ms: Vec<String> = vec![];
+    let member = |rng: &mut Rng, k: &str, v: String| format!("{}{}{}:{}{}", ws(rng), quote_json(rng, k), ws(rng), ws(rng), v);
+    // the tag
+    if !rng.chance(1, 25) {
+        let tv = match rng.below(30) {
+            0 => "null".to_string(),
+            1 => "5".to_string(),
+            2 => format!("[{}]", quote_json(rng, ty)),
+            _ => quote_json(rng, ty),
+        };
+        ms.push(member(rng, "type", tv));
+    }
+    let id = |rng: &mut Rng| match rng.below(16) {
+        0 => "5".to_string(),
+        1 => "null".to_string(),
+        2 => gen_string(rng),
+        _ => {
+            let k = rng.below(3);
+            quote_json(rng, &format!("id{k}"))
+        }
+    };
+    let request = |rng: &mut Rng| -> String {
+        let mut fs: Vec<String> = vec![];
+        if !rng.chance(1, 8) {
+            fs.push(format!("{}:{}", quote_json(rng, "query"), if rng.chance(1, 10) { gen_json(rng, 1) } else { quote_json(rng, QUERY) }));
+        }
+        if rng.chance(1, 3) {
+            fs.push(format!("{}:{}", quote_json(rng, "operationName"), if rng.chance(1, 4) { gen_json(rng, 1) } else { (*rng.pick(&["null", "\"o\""])).to_string() }));
+        }
+        if rng.chance(1, 3) {
+            fs.push(format!("{}:{}", quote_json(rng, "variables"), if rng.chance(1, 4) { gen_json(rng, 1) } else { (*rng.pick(&["null", "{}", "{\"a\":1,\"b\":[true]}", "{\"a\":1,\"a\":2}"])).to_string() }));
+        }
+        if rng.chance(1, 4) {
+            fs.push(format!("{}:{}", quote_json(rng, "extensions"), if rng.chance(1, 4) { gen_json(rng, 1) } else { (*rng.pick(&["null", "{}", "{\"x\":{\"y\":1.5}}"])).to_string() }));
+        }
+        if rng.chance(1, 6) {
+            fs.push(format!("{}:{}", gen_key(rng, &["operation_name", "uploads", "data", "x"]), gen_json(rng, 1)));
+        }
+        if rng.chance(1, 12) && !fs.is_empty() {
+            let d = rng.pick(&fs).clone();
+            fs.push(d);
+        }
+        rng.shuffle(&mut fs);
+        if rng.chance(1, 14) {
+            // positional form
+            return (*rng.pick(&["[]", "[\"subscription { s }\"]", "[\"subscription { s }\",null,{},{}]", "[\"q\",\"o\",null,null,null]", "[5]"])).to_string();
+        }
+        format!("{{{}}}", fs.join(","))
+    };
+    match ty {
+        "start" | "subscribe" => {
+            if !rng.chance(1, 12) {
+                let v = id(rng);
+                ms.push(member(rng, "id", v));
+            }
+            if !rng.chance(1, 12) {
+                let v = if rng.chance(1, 12) { gen_json(rng, 1) } else { request(rng) };
+                ms.push(member(rng, "payload", v));
+            }
+        }
+        "stop" | "complete" => {
+            if !rng.chance(1, 10) {
+                let v = id(rng);
+                ms.push(member(rng, "id", v));
+            }
+        }
+        "connection_terminate" => {}
+        _ => {
+            if rng.chance(1, 2) {
+                let v = gen_json(rng, 2);
+                ms.push(member(rng, "payload", v));
+            }
+        }
+    }
+    // unknown members
+    for _ in 0..[0, 0, 0, 1, 1, 2][rng.below(6)] {
+        dist.hit("frame_unknown_member");
+        let k = *rng.pick(&["x", "", "Type", "ID", "extensions", "id", "payload"]);
+        let v = gen_json(rng, 2);
+        ms.push(member(rng, k, v));
+    }
+    // a repeated member
+    if rng.chance(1, 10) && !ms.is_empty() {
+        dist.hit("frame_dup_member");
+        let d = rng.pick(&ms).clone();
+        ms.push(d);
+    }
+    rng.shuffle(&mut ms);
+    format!("{}{{{}{}}}{}", ws(rng), ms.join(","), ws(rng), ws(rng))
+}
+
+/// damage done to a frame after it was written
+fn mutate(rng: &mut Rng, text: String, dist: &mut Dist) -> Vec<u8> {
+    let mut bytes = text.clone().into_bytes();
+    let k = rng.below(16);
+    dist.hit(&format!("frame_mut_{k}"));
+    match k {
+        0 => bytes.extend_from_slice(plain("start", rng.below(3), rng.below(2)).as_bytes()),
+        1 => bytes.extend_from_slice(text.as_bytes()),
+        2 => bytes.extend_from_slice(&text.as_bytes()[..rng.below(text.len() + 1)]),
+        3 => bytes.extend_from_slice(rng.pick(&["}", "]", "x", "\u{0}", ",", ":", "1", "null", "\"\"", " 1", "\n{", "//", "\u{feff}", "\u{c}", "\u{a0}"]).as_bytes()),
+        4 => bytes.extend_from_slice(rng.pick(&[" ", "\n", "\t", "\r", " \n\t\r "]).as_bytes()),
+        5 => {
+            let lead = *rng.pick(&[" ", "\n\t", "\u{feff}", "\u{0}", "x", "\r"]);
+            bytes = [lead.as_bytes(), &bytes].concat();
+        }
+        6 => {
+            let n = rng.below(bytes.len() + 1);
+            bytes.truncate(n);
+        }
+        7 if !bytes.is_empty() => {
+            let i = rng.below(bytes.len());
+            bytes.remove(i);
+        }
+        8 => {
+            let i = rng.below(bytes.len() + 1);
+            bytes.insert(i, *rng.pick(&[b'"', b'{', b'}', b'[', b']', b',', b':', b'\\', b' ', b'0', b'e', b'-', b'.', 0, 0x1f, 0xff, 0xc3, 0x80]));
+        }
+        9 if !bytes.is_empty() => {
+            let i = rng.below(bytes.len());
+            bytes[i] = *rng.pick(&[b'"', b'}', b',', b':', b'\\', b' ', b'1', b'u', 0xff]);
+        }
+        10 => {
+            // as an array: the tag first
+            bytes = (*rng.pick(&[
+                "[\"ping\",null]", "[\"ping\"]", "[\"connection_init\",{}]", "[\"stop\",\"id0\"]", "[\"complete\",\"id1\"]", "[\"connection_terminate\"]",
+                "[\"start\",\"id0\",{\"query\":\"subscription { s }\"}]", "[\"subscribe\",\"id1\",[\"subscription { s }\"]]", "[\"pong\",1,2]", "[]",
+            ]))
+            .as_bytes()
+            .to_vec();
+        }
+        11 => {
+            let n = *rng.pick(&[3usize, 60, 125, 126, 127, 128, 129, 140]);
+            let inner = if rng.chance(1, 2) { nest("[", "]", n, "") } else { nest("{\"a\":", "}", n, "null") };
+            bytes = format!("{{\"type\":\"ping\",\"{}\":{}}}", rng.pick(&["payload", "x"]), inner).into_bytes();
+        }
+        12 => {
+            let n = *rng.pick(&["1e308", "1e309", "1.7976931348623158e308", "1.7976931348623159e308", "-1e400", "1e-400", "01", "1.", "-", "1e", "0e999999999999", "2e308", "17976931348623158e292", "17976931348623159e292", "0.00017976931348623159e312"]);
+            bytes = format!("{{\"type\":\"pong\",\"{}\":{}}}", rng.pick(&["payload", "x"]), n).into_bytes();
+        }
+        _ => {}
+    }
+    bytes
+}
+
+/// one frame for the random parts: a plain message, a structured message, or a damaged one
+fn gen_frame(rng: &mut Rng, dist: &mut Dist, sp: &[(&'static str, Vec<u8>)]) -> Sexp {
+    match rng.below(10) {
+        0 => {
+            let (fam, b) = rng.pick(sp);
+            dist.hit(&format!("frame_{fam}"));
+            frame(b)
+        }
+        1..=3 => {
+            dist.hit("frame_structured");
+            let m = gen_message(rng, dist);
+            frame(m.as_bytes())
+        }
+        4..=6 => {
+            dist.hit("frame_mutated");
+            let base = if rng.chance(1, 2) { gen_message(rng, dist) } else { plain(KINDS[rng.below(6)], rng.below(3), rng.below(2)) };
+            frame(&mutate(rng, base, dist))
+        }
+        _ => {
+            dist.hit("frame_plain");
+            frame(plain(KINDS[rng.below(6)], rng.below(3), rng.below(2)).as_bytes())
+        }
+    }
+}
+
+// ------------------------------------------------------------------ generator: sessions
 
 const NSYM: usize = 18;
 
-fn msgs(xs: Vec<Sexp>) -> Sexp {
-    list(xs)
-}
-
 fn step(ms: Vec<Sexp>, fut: &str, str_ev: Sexp, tick: bool) -> Sexp {
-    list(vec![msgs(ms), atom(fut), str_ev, atom(if tick { "1" } else { "0" })])
+    list(vec![list(ms), atom(fut), str_ev, atom(if tick { "1" } else { "0" })])
 }
 
-fn m0(kind: &str, v: usize) -> Sexp {
-    node(kind, vec![num(v)])
+fn p0(kind: &str, v: usize) -> Sexp {
+    ft(&plain(kind, 0, v))
 }
-fn m1(kind: &str, id: usize, v: usize) -> Sexp {
-    node(kind, vec![num(id), num(v)])
+fn p1(kind: &str, id: usize, v: usize) -> Sexp {
+    ft(&plain(kind, id, v))
 }
 fn item(i: usize, v: usize) -> Sexp {
     node("item", vec![num(i), num(v)])
@@ -350,28 +870,28 @@ fn fin(i: usize) -> Sexp {
     node("fin", vec![num(i)])
 }
 
-/// the atomic steps of the bounded-exhaustive part; `v` varies the spelling
-fn symbol(k: usize, v: usize) -> Sexp {
+/// the atomic steps of the bounded-exhaustive part; `v` varies the spelling / the undecodable frame
+fn symbol(k: usize, v: usize, sp: &[(&'static str, Vec<u8>)]) -> Sexp {
     let n = || atom("-");
     match k {
         0 => step(vec![], "-", n(), false),
-        1 => step(vec![m0("init", v)], "-", n(), false),
-        2 => step(vec![m1("start", 0, v)], "-", n(), false),
-        3 => step(vec![m1("start", 1, v)], "-", n(), false),
-        4 => step(vec![m1("stop", 0, v)], "-", n(), false),
-        5 => step(vec![m0("term", v)], "-", n(), false),
-        6 => step(vec![m0("ping", v)], "-", n(), false),
-        7 => step(vec![m0("pong", v)], "-", n(), false),
-        8 => step(vec![m0("bad", v)], "-", n(), false),
+        1 => step(vec![p0("init", v % 2)], "-", n(), false),
+        2 => step(vec![p1("start", 0, v % 2)], "-", n(), false),
+        3 => step(vec![p1("start", 1, v % 2)], "-", n(), false),
+        4 => step(vec![p1("stop", 0, v % 2)], "-", n(), false),
+        5 => step(vec![p0("term", v % 2)], "-", n(), false),
+        6 => step(vec![p0("ping", v % 2)], "-", n(), false),
+        7 => step(vec![p0("pong", v % 2)], "-", n(), false),
+        8 => step(vec![frame(&sp[v % sp.len()].1)], "-", n(), false),
         9 => step(vec![node("eof", vec![])], "-", n(), false),
         10 => step(vec![], "ok", n(), false),
         11 => step(vec![], "err", n(), false),
-        12 => step(vec![], "-", item(0, v), false),
-        13 => step(vec![], "-", item(1, v), false),
+        12 => step(vec![], "-", item(0, v % 2), false),
+        13 => step(vec![], "-", item(1, v % 2), false),
         14 => step(vec![], "-", fin(0), false),
         15 => step(vec![], "-", n(), true),
-        16 => step(vec![m0("init", v)], "ok", n(), false),
-        17 => step(vec![m1("start", 0, v)], "-", item(0, v), false),
+        16 => step(vec![p0("init", v % 2)], "ok", n(), false),
+        17 => step(vec![p1("start", 0, v % 2)], "-", item(0, v % 2), false),
         _ => unreachable!(),
     }
 }
@@ -381,7 +901,7 @@ fn pow(b: usize, e: usize) -> usize {
 }
 
 /// number of bounded-exhaustive scripts for a tier, and the decoder of the i-th one
-fn exhaustive(i: usize, lmax: usize) -> Option<(usize, usize, Vec<usize>)> {
+fn exhaustive(i: usize, lmax: usize) -> Result<(usize, usize, Vec<usize>), usize> {
     let mut i = i;
     for block in 0..4 {
         for len in 1..=lmax {
@@ -393,26 +913,88 @@ fn exhaustive(i: usize, lmax: usize) -> Option<(usize, usize, Vec<usize>)> {
                     syms.push(x % NSYM);
                     x /= NSYM;
                 }
-                return Some((block & 1, block >> 1, syms));
+                return Ok((block & 1, block >> 1, syms));
             }
             i -= n;
         }
     }
-    None
+    Err(i)
 }
 
-fn gen_case(rng: &mut Rng, i: usize, o: &Opts, dist: &mut Dist) -> Sexp {
+const NCTX: usize = 7;
+
+/// every hand-picked frame at every point of a session: before the init, while the init callback
+/// runs, after the ack, while an operation streams, after it completed, after the client stopped
+/// it, behind another frame in the same poll; followed by a tail that shows whether the session
+/// went on or fell silent
+fn placed(proto: usize, ctx: usize, f: Sexp, v: usize) -> Sexp {
+    let n = || atom("-");
+    let mut s: Vec<Sexp> = vec![];
+    let init_ok = || step(vec![p0("init", v % 2)], "ok", n(), false);
+    match ctx {
+        0 => s.push(step(vec![f], "-", n(), false)),
+        1 => {
+            s.push(step(vec![p0("init", v % 2)], "-", n(), false));
+            s.push(step(vec![f], "-", n(), false));
+            s.push(step(vec![], "ok", n(), false));
+            s.push(step(vec![], "-", n(), false));
+        }
+        2 => {
+            s.push(init_ok());
+            s.push(step(vec![f], "-", n(), false));
+        }
+        3 => {
+            s.push(init_ok());
+            s.push(step(vec![p1("start", 0, v % 2)], "-", item(0, 1), false));
+            s.push(step(vec![f], "-", item(0, 2), false));
+        }
+        4 => {
+            s.push(init_ok());
+            s.push(step(vec![p1("start", 0, v % 2)], "-", n(), false));
+            s.push(step(vec![], "-", fin(0), false));
+            s.push(step(vec![f], "-", n(), false));
+        }
+        5 => {
+            s.push(init_ok());
+            s.push(step(vec![p1("start", 0, v % 2)], "-", n(), false));
+            s.push(step(vec![p1("stop", 0, v % 2)], "-", n(), false));
+            s.push(step(vec![f], "-", item(0, 4), false));
+        }
+        _ => {
+            s.push(init_ok());
+            s.push(step(vec![p1("start", 1, v % 2), f, p1("start", 2, v % 2)], "-", n(), false));
+        }
+    }
+    s.push(step(vec![], "-", item(0, 3), false));
+    s.push(step(vec![p0("ping", 0)], "ok", n(), false));
+    s.push(step(vec![p1("start", 0, 1)], "-", item(1, 5), false));
+    s.push(step(vec![], "-", item(1, 6), false));
+    let mut c = vec![atom(if proto == 0 { "new" } else { "legacy" }), num(0)];
+    c.extend(s);
+    node("ws", c)
+}
+
+fn gen_session(rng: &mut Rng, i: usize, o: &Opts, dist: &mut Dist, sp: &[(&'static str, Vec<u8>)]) -> Sexp {
     let lmax = if o.tier == "thorough" { 4 } else { 3 };
-    if let Some((proto, prefix, syms)) = exhaustive(i, lmax) {
-        dist.hit("exhaustive");
-        let mut v = vec![atom(if proto == 0 { "new" } else { "legacy" }), num(2)];
-        if prefix == 1 {
-            v.push(symbol(16, 0));
+    let i = match exhaustive(i, lmax) {
+        Ok((proto, prefix, syms)) => {
+            dist.hit("exhaustive");
+            let mut v = vec![atom(if proto == 0 { "new" } else { "legacy" }), num(2)];
+            if prefix == 1 {
+                v.push(symbol(16, 0, sp));
+            }
+            for (j, k) in syms.iter().enumerate() {
+                v.push(symbol(*k, i / 7 + j, sp));
+            }
+            return node("ws", v);
         }
-        for (j, k) in syms.iter().enumerate() {
-            v.push(symbol(*k, (i + j) % 2));
-        }
-        return node("ws", v);
+        Err(rest) => rest,
+    };
+    if i < sp.len() * NCTX * 2 {
+        dist.hit("placed");
+        let (fam, b) = &sp[i / (NCTX * 2)];
+        dist.hit(&format!("placed_{fam}"));
+        return placed(i % 2, (i / 2) % NCTX, frame(b), i / 14);
     }
     dist.hit("random");
     let proto = if rng.chance(1, 2) { "new" } else { "legacy" };
@@ -434,21 +1016,25 @@ fn gen_case(rng: &mut Rng, i: usize, o: &Opts, dist: &mut Dist) -> Sexp {
         };
         for q in 0..nmsg {
             let v = rng.below(2);
-            let k = if j == 0 && q == 0 && rng.chance(3, 4) { 0 } else { rng.below(80) };
-            let m = match k {
-                0..=11 => m0("init", v),
+            let k = if j == 0 && q == 0 && rng.chance(3, 4) { 0 } else { rng.below(88) };
+            let (name, m) = match k {
+                0..=11 => ("init", p0("init", v)),
                 12..=41 => {
                     started += 1;
-                    m1("start", rng.below(3), v)
+                    ("start", p1("start", rng.below(3), v))
                 }
-                42..=56 => m1("stop", rng.below(3), v),
-                57..=59 => m0("term", v),
-                60..=67 => m0("ping", v),
-                68..=72 => m0("pong", v),
-                73..=76 => m0("bad", rng.below(BAD.len())),
-                _ => node("eof", vec![]),
+                42..=56 => ("stop", p1("stop", rng.below(3), v)),
+                57..=59 => ("term", p0("term", v)),
+                60..=67 => ("ping", p0("ping", v)),
+                68..=72 => ("pong", p0("pong", v)),
+                73..=84 => {
+                    // a structured / damaged / hand-picked frame: may well start an operation
+                    started += 1;
+                    ("frame", gen_frame(rng, dist, sp))
+                }
+                _ => ("eof", node("eof", vec![])),
             };
-            dist.hit(&format!("msg_{}", m.tag().unwrap()));
+            dist.hit(&format!("msg_{name}"));
             ms.push(m);
         }
         let fut = match rng.below(20) {
@@ -479,6 +1065,38 @@ fn gen_case(rng: &mut Rng, i: usize, o: &Opts, dist: &mut Dist) -> Sexp {
     node("ws", v)
 }
 
+fn gen_decode(rng: &mut Rng, i: usize, dist: &mut Dist, sp: &[(&'static str, Vec<u8>)]) -> Sexp {
+    if i < sp.len() {
+        dist.hit(&format!("frame_{}", sp[i].0));
+        return node("dec", vec![frame(&sp[i].1)]);
+    }
+    let f = match rng.below(10) {
+        0..=3 => {
+            dist.hit("frame_structured");
+            let m = gen_message(rng, dist);
+            frame(m.as_bytes())
+        }
+        4..=8 => {
+            dist.hit("frame_mutated");
+            let base = if rng.chance(2, 3) { gen_message(rng, dist) } else { plain(KINDS[rng.below(6)], rng.below(3), rng.below(2)) };
+            let mut b = mutate(rng, base, dist);
+            if rng.chance(1, 5) {
+                b = mutate(rng, String::from_utf8_lossy(&b).into_owned(), dist);
+            }
+            frame(&b)
+        }
+        _ => {
+            dist.hit("frame_plain");
+            frame(plain(KINDS[rng.below(6)], rng.below(3), rng.below(2)).as_bytes())
+        }
+    };
+    node("dec", vec![f])
+}
+
 fn main() {
-    main_loop(&mut gen_case, &mut run);
+    let sp = specials();
+    let mut g = |rng: &mut Rng, i: usize, o: &Opts, dist: &mut Dist| -> Sexp {
+        if o.stream == "decode" { gen_decode(rng, i, dist, &sp) } else { gen_session(rng, i, o, dist, &sp) }
+    };
+    main_loop(&mut g, &mut run);
 }
